@@ -88,7 +88,8 @@ func (d *EventTriggerDefinition) MarshalBytes() []byte {
 // Validate checks if the event trigger definition is valid.
 //
 // A trigger definition is valid if
-//   - all log predicates are valid and
+//   - all log predicates are valid (including that BytesEq predicates on topics compare with a
+//     32-byte argument) and
 //   - there are no two log BytesEq predicates for the same topic
 func (d *EventTriggerDefinition) Validate() error {
 	for i, lp := range d.LogPredicates {
@@ -184,6 +185,12 @@ func (p *LogPredicate) Validate() error {
 	}
 	if err := p.ValuePredicate.Validate(); err != nil {
 		return err
+	}
+	// A topic is always one word, so a BytesEq predicate on a topic with an argument of any other
+	// length can never match and cannot be expressed as a topic filter (see ToFilterQuery).
+	if p.LogValueRef.IsTopic() && p.ValuePredicate.Op == BytesEq && len(p.ValuePredicate.ByteArgs[0]) != Word {
+		return fmt.Errorf("topic value must be compared with a %d-byte argument, got %d bytes",
+			Word, len(p.ValuePredicate.ByteArgs[0]))
 	}
 	return nil
 }
